@@ -15,7 +15,7 @@ BUDGET = {"quick": 3000, "thorough": 100000}
 REQUIRED = ["A:invert", "A:shift", "A:reorient", "A:reorient-nearest-is-corner-1-or-3", "B:set_patch", "B:project_side",
             "B:project_side+edges", "B:project_side+points", "B:get_face", "B:project_edge", "B:face.add_edge", "B:add_side_edge",
             "B:project_corner", "B:sequence", "A:corner-projected-before-the-calls", "B:queried-between-calls",
-            "B:probe-operation-after-addressing-calls"]
+            "B:probe-operation-after-addressing-calls", "B:project_edge-with-a-reused-label-list", "A:small-or-large-length-unit"]
 MIN_KEYS = 150
 RULE = (
     "A: quadrilaterals in general position with four distinguishable edges (Arc / Origin / Project / Spline / Line), sequences "
@@ -79,6 +79,14 @@ def fixed_cases(tier):
     for j in (1, 3):
         out.append({"part": "A", "quad": gen_quad(random.Random(f"c10/A/q{j}")), "calls": [["reorient", j, [0.05, -0.04, 0.03]], ["invert"]],
                     "kinds": ["arc", "origin", "line", "spline"], "corner_labels": [None, "cgA", None, None]})
+    for e1, e2 in (((0, 1), (2, 3)), ((4, 5), (1, 5)), ((0, 4), (6, 7))):
+        out.append({"part": "B", "pts": make_hex(random.Random(f"c10/sl/{e1}")), "query_between": False,
+                    "calls": [["project_edge_list", e1[0], e1[1]], ["project_edge_list", e2[0], e2[1]], ["project_edge", e1[0], e1[1]]]})
+    for k, unit in enumerate((1e-2, 2e-4, 2e-4, 300.0)):
+        out.append({"part": "A", "quad": gen_quad(random.Random(f"c10/A/u{k}")), "calls": [["reorient", (k + 1) % 4, [0.05, -0.04, 0.03]]],
+                    "kinds": ["arc", "origin", "polyline", "spline"], "unit": unit})
+    out.append({"part": "A", "quad": gen_quad(random.Random("c10/A/pl")), "calls": [["invert"], ["shift", 1], ["invert"]],
+                "kinds": ["polyline", "arc", "line", "polyline"]})
     for a, b in (("bottom", "top"), ("left", "front"), ("right", "back")):
         out.append({"part": "B", "pts": make_hex(random.Random(f"c10/q/{a}")), "calls": [["set_patch", a], ["set_patch", b], ["project_side", a]],
                     "query_between": True})
@@ -97,12 +105,13 @@ def gen_case(ctx):
                 calls.append(["shift", rng.randint(-4, 4)])
             else:
                 calls.append(["reorient", rng.randrange(4), [rng.uniform(-0.12, 0.12) for _ in range(3)]])
-        kinds = [rng.choice(["arc", "origin", "project", "spline", "line"]) for _ in range(4)]
+        kinds = [rng.choice(["arc", "origin", "project", "spline", "polyline", "line"]) for _ in range(4)]
         if kinds.count("line") > 1:
-            kinds = ["arc", "origin", "project", "line"]
+            kinds = ["arc", "origin", rng.choice(["project", "polyline"]), "line"]
             rng.shuffle(kinds)
         labels = [rng.choice([None, None, f"cg{i}"]) for i in range(4)] if rng.random() < 0.6 else None
-        return {"part": "A", "quad": gen_quad(rng), "calls": calls, "kinds": kinds, "corner_labels": labels}
+        return {"part": "A", "quad": gen_quad(rng), "calls": calls, "kinds": kinds, "corner_labels": labels,
+                "unit": rng.choices([1.0, 1e-2, 2e-4, 300.0], [0.55, 0.15, 0.2, 0.1])[0]}
     calls = []
     used_sides, used_corners = set(), set()
     edge_use = {}  # frozenset(edge) -> "arc" | number of projection labels (an edge takes at most 2)
@@ -132,7 +141,7 @@ def gen_case(ctx):
                     continue
                 edge_use[fe] = (edge_use.get(fe) or 0) + 1
                 c = list(e) if rng.random() < 0.5 else [e[1], e[0]]
-                calls.append(["project_edge", c[0], c[1]])
+                calls.append(["project_edge" if rng.random() < 0.7 else "project_edge_list", c[0], c[1]])
             else:
                 if fe in edge_use:
                     continue
@@ -165,16 +174,19 @@ def edge_sig(e):
         return ("origin", tuple(np.round(e.origin.position, 9)))
     if k == "project":
         return ("project", tuple(e.label))
-    if k == "spline":
+    if k in ("spline", "polyLine"):
         pts = e.curve.discretize()
-        return ("spline", tuple(sorted(tuple(np.round(p, 9)) for p in pts)))
+        return (k, tuple(sorted(tuple(np.round(p, 9)) for p in pts)))
     return ("line",)
 
 
 def run_a(ctx, case):
     import classy_blocks as cb
 
-    q = [np.array(p) for p in case["quad"]]
+    unit = float(case.get("unit", 1.0))  # the same face in another length unit (a 0.2 mm channel modelled in metres)
+    q = [np.array(p) * unit for p in case["quad"]]
+    if unit != 1.0:
+        ctx.count("A:small-or-large-length-unit")
     edges = []
     for i, k in enumerate(case["kinds"]):
         a, b = q[i], q[(i + 1) % 4]
@@ -188,6 +200,8 @@ def run_a(ctx, case):
             edges.append(cb.Project(f"geo{i}"))
         elif k == "spline":
             edges.append(cb.Spline([list(a + (b - a) * 0.2 + bulge), list(a + (b - a) * 0.5 + bulge * 1.3)]))
+        elif k == "polyline":
+            edges.append(cb.PolyLine([list(a + (b - a) * 0.3 + bulge), list(a + (b - a) * 0.6 + bulge * 0.7)]))
         else:
             edges.append(None)
     face = cb.Face(q, edges)
@@ -198,7 +212,7 @@ def run_a(ctx, case):
             ctx.count("A:corner-projected-before-the-calls")
 
     def corner_labels():
-        return {tuple(np.round(p.position, 9)): sorted(p.projected_to) for p in face.points}
+        return {tuple(np.round(p.position / unit, 9)): sorted(p.projected_to) for p in face.points}
 
     labels0 = corner_labels()
 
@@ -223,7 +237,7 @@ def run_a(ctx, case):
         elif name == "shift":
             face.shift(call[1])
         else:
-            target = np.array(before_pts[call[1]]) + np.array(call[2])
+            target = np.array(before_pts[call[1]]) + np.array(call[2]) * unit
             face.reorient(list(target))
         ctx.count(f"A:{name}")
         pts, m = state()
@@ -275,6 +289,7 @@ def run_b(ctx, case):
     for a in range(3):
         op.chop(a, count=1)
     exp_patches, exp_faces, exp_pedges, exp_pverts, exp_arcs = {}, {}, {}, {}, set()
+    shared_list = ["gshared"]
     geo = {}
     names = []
     for n, call in enumerate(case["calls"]):
@@ -311,6 +326,12 @@ def run_b(ctx, case):
             geo[lb] = ["type sphere", "origin (0 0 0)", "radius 30"]
             op.project_edge(call[1], call[2], lb)
             exp_pedges.setdefault(frozenset((call[1], call[2])), set()).add(lb)
+        elif kind == "project_edge_list":
+            # the caller hands over one and the same list object for several edges
+            geo["gshared"] = ["type sphere", "origin (0 0 0)", "radius 30"]
+            op.project_edge(call[1], call[2], shared_list)
+            ctx.count("B:project_edge-with-a-reused-label-list")
+            exp_pedges.setdefault(frozenset((call[1], call[2])), set()).add("gshared")
         elif kind == "add_edge":
             c1, c2 = call[1], call[2]
             mid = (pts[c1] + pts[c2]) / 2 + np.cross(pts[c2] - pts[c1], [0.3, 0.5, 0.7]) * 0.2
@@ -341,6 +362,9 @@ def run_b(ctx, case):
             for side in hexconv.SIDE_NAMES:
                 op.get_face(side)
             ctx.count("B:queried-between-calls")
+    if shared_list != ["gshared"]:
+        ctx.violation("B:project_edge:label-list-of-the-caller-modified", f"calls {case['calls']}: the list ['gshared'] passed as label is now {shared_list}")
+        return
     if len(case["calls"]) > 1:
         ctx.count("B:sequence")
     mesh = cb.Mesh()
@@ -394,7 +418,7 @@ def run_b(ctx, case):
         ctx.violation("B:projected-corners:wrong-corners", f"calls {case['calls']}: projected corners {got_pv}, expected {exp_pverts}")
         return
     del tag
-    if any(c[0] in ("project_edge", "add_edge") or c[0].startswith("project_side+edges") for c in case["calls"]):
+    if any(c[0] in ("project_edge", "project_edge_list", "add_edge") or c[0].startswith("project_side+edges") for c in case["calls"]):
         leak_probe(ctx, case, pts)
 
 
